@@ -366,6 +366,14 @@ def directed():
             for dtype_ in ("complex128", "complex64"):
                 yield mk_case(lens, dtype_, vals_, "sort", 1, "nonfinite")
     nans_ = [complex(1, nan_), complex(nan_, 2), complex(nan_, nan_), complex(9, nan_), complex(nan_, -3)]
+    # extended-precision cells that differ only below the resolution of a double
+    ld_ = np.longdouble
+    tiny_ = [ld_(1) + ld_(2) ** -60, ld_(1), ld_(1) + ld_(2) ** -61, ld_(3), ld_(1) - ld_(2) ** -62, ld_(1) + ld_(2) ** -59]
+    for lens in ([3, 1], [4, 2], [6], [2, 0, 4]):
+        for k_ in range(3):
+            vals_ = [tiny_[(i * (k_ + 1) + k_) % len(tiny_)] for i in range(sum(lens))]
+            for op_ in ("sort", "unique"):
+                yield mk_case(lens, "longdouble", vals_, op_, 1, "small")
     for a_ in nans_:
         for b_ in nans_:
             for rows_ in ([[a_, 5, complex(3, 2)], [b_, complex(4, 1)]], [[5, a_, complex(3, 2), 1], [2, b_], [b_, a_, 7]], [[b_, 1], [complex(0, 1), a_, 2, 3]]):
